@@ -6,8 +6,9 @@ from gen import fanout
 ID = "C02"
 RULE = ("the fan-out histories of C01 (real logic.Group, real sessions, one consumer of each kind joining at every index of 8 "
         "stream shapes x 7 cache configurations, plus random multi-epoch histories with mid-stream header changes and "
-        "re-publishing) with TS blobs / PAT-PMT injected through OnTsPackets/OnPatPmt; each consumer's byte stream is parsed "
-        "into units and checked for headers-first, header-in-force, key-frame-first, exact GOP replay and no-video-no-wait; "
+        "re-publishing; 1..3 players of each kind waiting for a key frame while metadata / sequence headers change, merge writer "
+        "off / 1 / 8192, GOP cache 0 / 1 / 2) with TS blobs / PAT-PMT injected through OnTsPackets/OnPatPmt; each consumer's byte stream is parsed "
+        "into units and checked for headers-first, header-in-force, headers-never-withheld, key-frame-first, exact GOP replay and no-video-no-wait; "
         "a case is non-trivial when a consumer joins while the input is live")
 ASSUMPTIONS = ["TS packets / PAT-PMT are abstract blobs here (their production from RTMP messages is C06/C09)",
                "per-GOP cap: lal keeps SingleGopMaxFrameNum+1 entries per GOP (the code's <=); that is taken as 'the cap'",
@@ -19,6 +20,7 @@ _last = {}
 
 
 def gen_cases(tier, rng):
+    yield from fanout.gen_wait_histories(tier, rng)
     yield from fanout.gen_histories(tier, rng, header_changes=True)
     yield from fanout.gen_rtsp_histories(tier, rng)
 
@@ -141,6 +143,17 @@ def gops_expected(cfg, msgs, k, upto, ep):
 
 
 def check_av(cfg, msgs, idx, k, a, cid, b):
+    # E: metadata and sequence headers are no frames: a player receives every one published while it is attached,
+    # whether it waits for a key frame or not (an admitted RTMP player may still have its tail in the merge buffer)
+    if k in ("r", "f", "w"):
+        got = set(idx)
+        live = [i for i, m in enumerate(msgs) if a < m["pos"] < b and len(m["p"]) > 0]
+        for i in live:
+            if msgs[i]["cls"] in ("meta", "vsh", "ash") and i not in got:
+                if k == "r" and cfg.get("mw", 0) > 0 and all(j not in got for j in live if j >= i):
+                    break
+                return ("hdr-wait", "consumer %s: %s %d, published while it was attached, was not delivered (its stream: %s)"
+                        % (cid, {"meta": "metadata", "vsh": "video sequence header", "ash": "AAC sequence header"}[msgs[i]["cls"]], i, idx[:24]))
     if not idx:
         # never held back on a stream without video
         return no_video_rule(msgs, idx, a, cid, k, b)
@@ -173,14 +186,14 @@ def check_av(cfg, msgs, idx, k, a, cid, b):
             want = last_before(msgs, i, "vsh")
             if want is not None and (cur_vsh is None or msgs[cur_vsh]["p"] != msgs[want]["p"]):
                 in_pro = msgs[i]["pos"] < a
-                fid = "F-08ii" if in_pro else "F-08i"
+                fid = "hdr-gop" if in_pro else "hdr-live"
                 return (fid, "consumer %s: video frame %d was published under sequence header %d but is preceded by %s in its stream"
                         % (cid, i, want, cur_vsh))
         elif m["cls"] == "other" and m["t"] == 8 and len(m["p"]) > 1 and m["p"][0] >> 4 == 10:
             want = last_before(msgs, i, "ash")
             if want is not None and (cur_ash is None or msgs[cur_ash]["p"] != msgs[want]["p"]):
                 in_pro = msgs[i]["pos"] < a
-                fid = "F-08ii" if in_pro else "F-08i"
+                fid = "hdr-gop" if in_pro else "hdr-live"
                 return (fid, "consumer %s: AAC frame %d was published under sequence header %d but is preceded by %s"
                         % (cid, i, want, cur_ash))
     # A: metadata before media, when metadata was published before the consumer's first media frame
@@ -189,7 +202,7 @@ def check_av(cfg, msgs, idx, k, a, cid, b):
         want = last_before(msgs, i0, "meta")
         got = [i for i in idx[:first_media_pos] if msgs[i]["cls"] == "meta"]
         if want is not None and len(msgs[want]["p"]) > 0 and not got:
-            return ("F-08i" if msgs[want]["pos"] > a else "meta", "consumer %s: media frame %d before any metadata although metadata %d had been published" % (cid, i0, want))
+            return ("meta", "consumer %s: media frame %d before any metadata although metadata %d had been published" % (cid, i0, want))
     # D: GOP replay = exactly the most recent cached GOPs, oldest first, then live data
     if live_idx:
         first_live = live_idx[0]
